@@ -158,8 +158,8 @@ Print Assumptions copy_leaves_argument.
 (** * Non-vacuity: the hypotheses are satisfiable and the laws say something   *)
 (* ------------------------------------------------------------------------- *)
 
-Definition sA : scale := [(0, 1 # 10); (10, 2 # 10); (20, 3 # 10)].
-Definition sB : scale := [(5, 1 # 4); (10, 1 # 8); (30, 1 # 2)].
+(** example scales (ScaleC09Proofs.v):
+      sA = [(0, 1/10); (10, 2/10); (20, 3/10)]      sB = [(5, 1/4); (10, 1/8); (30, 1/2)] *)
 
 Example sA_sorted : StronglySorted Qlt (thresholds sA).
 Proof. cbn. repeat constructor. Qed.
@@ -184,6 +184,13 @@ Example combine_other_first_below_ex :
   = [(0, 1 # 5); (10, 3 # 10)]
   /\ Qred (calc (add_tax_scale [(10, 1 # 10)] [(0, 2 # 10)]) 5) = 1.
 Proof. split; vm_compute; reflexivity. Qed.
+
+(** before the F5 repair ([combine_bracket_F5]: rates[-1] read for an index of -1) the same
+    combination taxed 5 at 1.5 *)
+Example combine_refuted_F5 :
+  calc (combine_bracket_F5 (2 # 10) 0 [(10, 1 # 10)]) 5 == 3 # 2
+  /\ ~ 3 # 2 == calc [(10, 1 # 10)] 5 + calc [(0, 2 # 10)] 5.
+Proof. split; vm_compute; [reflexivity|discriminate]. Qed.
 
 (** empty receiver *)
 Example combine_empty_receiver_ex :
